@@ -27,4 +27,6 @@ def run(check):
     check.run_rule('C06.R5', lambda c: rule_partial_discovery(c, 'C06.R5'))
     # extraction: every forwarding call is found (deferred nested calls included) and its star arguments classified
     check.run_rule('C06.R6', lambda c: rule_invalidation_tables(c, 'C06.R6', precision_rule='C06.R6'))
+    from ..rules_visitor import rule_optional_container_truthiness
+    check.run_rule('C06.R7', lambda c: rule_optional_container_truthiness(c, 'C06.R7'))
     check.run_rule('C06.R6b', lambda c: rule_star_extraction(c, 'C06.R6'))
